@@ -294,12 +294,12 @@ func c26Run(r *simkit.Run) {
 
 				return &c26Conn{Conn: a, left: &breakAfter, r: r}, nil
 			},
-			PoolSize:        1 + r.Choose(3),
+			PoolSize:         1 + r.Choose(3),
 			DisableIndentity: true,
-			Protocol:        2,
-			DialTimeout:     time.Minute,
-			ReadTimeout:     time.Minute,
-			WriteTimeout:    time.Minute,
+			Protocol:         2,
+			DialTimeout:      time.Minute,
+			ReadTimeout:      time.Minute,
+			WriteTimeout:     time.Minute,
 		}
 
 		if noRetry {
@@ -516,12 +516,12 @@ func c26Run(r *simkit.Run) {
 
 func init() {
 	simkit.Register(&simkit.Harness{
-		ID:    "C26",
-		Run:   c26Run,
-		Setup: c26Setup,
-		Real:  []string{"isaacdatabase.RedisPermanent", "storage/redis.Storage", "go-redis v9 client", "isaacdatabase.LeveldbPermanent (the reference)", "isaacdatabase.LeveldbBlockWrite / TempLeveldb on memory goleveldb"},
-		Stub:  []string{"Redis server: miniredis v2.33 in-process, every connection a net.Pipe served inside the run (no socket traffic)", "connection resets inside merges (harness)"},
-		Rule:  "each run merges 1-6 (thorough up to 11) generated blocks (states incl. suffrage and policy changes, known operations, optional 120+ state blocks, height gaps) into a RedisPermanent and a LeveldbPermanent from the same TempLeveldb; after merges and after reopening both, every PermanentDatabase read (last/by-height block maps and their bytes, suffrage proofs by suffrage height / block height / last and their bytes, states and their bytes, in-state and known operations, last policy) is compared between the two. In a quarter of the merges (client retry enabled) the Redis connection breaks after a drawn number of bytes and the client continues on a new connection; a merge that fails all the same ends the run unjudged. distinct = event-log hash",
+		ID:          "C26",
+		Run:         c26Run,
+		Setup:       c26Setup,
+		Real:        []string{"isaacdatabase.RedisPermanent", "storage/redis.Storage", "go-redis v9 client", "isaacdatabase.LeveldbPermanent (the reference)", "isaacdatabase.LeveldbBlockWrite / TempLeveldb on memory goleveldb"},
+		Stub:        []string{"Redis server: miniredis v2.33 in-process, every connection a net.Pipe served inside the run (no socket traffic)", "connection resets inside merges (harness)"},
+		Rule:        "each run merges 1-6 (thorough up to 11) generated blocks (states incl. suffrage and policy changes, known operations, optional 120+ state blocks, height gaps) into a RedisPermanent and a LeveldbPermanent from the same TempLeveldb; after merges and after reopening both, every PermanentDatabase read (last/by-height block maps and their bytes, suffrage proofs by suffrage height / block height / last and their bytes, states and their bytes, in-state and known operations, last policy) is compared between the two. In a quarter of the merges (client retry enabled) the Redis connection breaks after a drawn number of bytes and the client continues on a new connection; a merge that fails all the same ends the run unjudged. distinct = event-log hash",
 		Assumptions: []string{"miniredis implements the Redis commands used (GET/SET/EXISTS/ZADD/ZRANGE BYLEX/SCAN/DEL/pipelines) faithfully", "a merge that returns an error is not a merged block: the run ends unjudged"},
 	})
 }
